@@ -29,7 +29,7 @@ def check(ctx):
     f = P.func(q)
     SPR = RES + "SinglePhaseReservoir"
     ctx.touch(q)
-    it = interp(ctx, opaque={FP + "FlowProperties.__init__"}, opaque_methods={"simulate", "recovery_factor"})
+    it = interp(ctx, opaque={FP + "FlowProperties.__init__"}, opaque_methods={"bluebonnet.flow.reservoir:simulate", "bluebonnet.flow.reservoir:recovery_factor"})
     paths = returns(it.run_function(q))
     if len(paths) != 1:
         raise AnalysisError(f"{q}: expected one path, found {len(paths)}")
@@ -38,8 +38,8 @@ def check(ctx):
     evs = [e for e in p.events if e.kind == "construct" or (e.kind in ("int_call", "method_call") and e.data.get("recv") is not None)]
     cons_fp = [e for e in evs if e.kind == "construct" and e.data["cls"] == FP + "FlowProperties"]
     cons_r = [e for e in evs if e.kind == "construct" and e.data["cls"] == SPR]
-    sims = [e for e in evs if e.kind == "int_call" and e.data["callee"].endswith(".simulate")]
-    recs = [e for e in evs if e.kind == "int_call" and e.data["callee"].endswith(".recovery_factor")]
+    sims = [e for e in evs if e.kind == "int_call" and e.data["callee"].startswith("bluebonnet.flow.reservoir.") and e.data["callee"].endswith(".simulate")]
+    recs = [e for e in evs if e.kind == "int_call" and e.data["callee"].startswith("bluebonnet.flow.reservoir.") and e.data["callee"].endswith(".recovery_factor")]
     ok_shape = len(cons_fp) == 1 and len(cons_r) == 1 and len(sims) == 1 and len(recs) == 1
     ctx.check(
         ok_shape, "C18-a", q + ":forward model", f.where(),
@@ -172,7 +172,7 @@ def check(ctx):
     # reader 2
     qp = FCP + "plot_production_comparison"
     ctx.touch(qp)
-    it3 = interp(ctx, opaque={FP + "FlowProperties.__init__"}, opaque_methods={"simulate", "recovery_factor"})
+    it3 = interp(ctx, opaque={FP + "FlowProperties.__init__"}, opaque_methods={"bluebonnet.flow.reservoir:simulate", "bluebonnet.flow.reservoir:recovery_factor"})
     rd = set()
     for pp in returns(it3.run_function(qp)):
         rd |= {e.data["key"] for e in pp.events if e.kind == "read_sub" and it3.to_nf(e.data["base"]) == nf.sym("params")}
